@@ -57,7 +57,11 @@ def round_grid(v):
 
 
 # ------------------------------------------------------------------ datasets
-LABEL_POOLS = [['a', 'b', 'c', 'd'], ['d', 'c', 'b', 'a'], ['x10', 'x9', 'x1', 'x2'], ['B', 'a', 'C', 'b']]
+# label sets of equal and of different widths; labels that are prefixes of each other; non-ASCII; trailing blanks
+LABEL_POOLS = [['a', 'b', 'c', 'd'], ['d', 'c', 'b', 'a'], ['x10', 'x9', 'x1', 'x2'], ['B', 'a', 'C', 'b'],
+               ['a', 'ab', 'abc', 'abd'], ['abd', 'a', 'abc', 'ab'], ['\u00e9', '\u00e9a', 'z', 'zz\u00fc'], ['a', 'a ', 'b  ', 'b'],
+               ['long label', 'lo', 'long', 'l']]
+PREFIX_POOLS = LABEL_POOLS[4:]
 
 
 def make_axis(kind, labels, values, order=None):
@@ -227,6 +231,33 @@ def build_roi(spec, xcats):
     return G.build(spec)
 
 
+def scale_spec(spec, axis, s):
+    """the region with the coordinate `axis` ('x' | 'y') multiplied by s (a power of two), when that is again a region of the same
+    parametrisation (polygons, unrotated rectangles and ellipses, ranges); None otherwise"""
+    k = spec[0]
+    s = F(s)
+    if k == 'range':
+        return ('range', spec[1], spec[2] * s, spec[3] * s) if spec[1] == axis else spec
+    if k == 'poly':
+        return ('poly', tuple((a * s, b) if axis == 'x' else (a, b * s) for a, b in spec[1])) + tuple(spec[2:])
+    if k in ('rect', 'ell') and G.ang_exact(spec[5]) and G.branch_of(G.ang_theta(spec[5])) == 0:
+        if k == 'rect':
+            return ('rect', spec[1] * s, spec[2] * s, spec[3], spec[4], spec[5]) if axis == 'x' else ('rect', spec[1], spec[2], spec[3] * s, spec[4] * s, spec[5])
+        return ('ell', spec[1] * s, spec[2], spec[3] * s, spec[4], spec[5]) if axis == 'x' else ('ell', spec[1], spec[2] * s, spec[3], spec[4] * s, spec[5])
+    return None
+
+
+def unscale_state(st, ax, s):
+    """canonical implementation state with the numeric axis `ax` (0 | 1) divided by s again"""
+    if st[0] == 'range':
+        return ('range', st[1], st[2] / F(s), st[3] / F(s)) if st[1] == ax else st
+    if st[0] == 'and':
+        return ('and', unscale_state(st[1], ax, s), unscale_state(st[2], ax, s))
+    if st[0] == 'multi' and st[1] != ax:
+        return ('multi', st[1], [(k, [(a / float(s), b / float(s)) for a, b in segs]) for k, segs in st[2]])
+    return st
+
+
 def exact_path(spec):
     """paths whose arithmetic is exact on dyadic input (only exactly-on-boundary elements are ambiguous)"""
     return spec[0] in ('range', 'catroi') or (spec[0] == 'rect' and G.ang_exact(spec[5]) and G.branch_of(G.ang_theta(spec[5])) == 0)
@@ -253,9 +284,11 @@ class Cases:
         self.items = []
         self.n = 0
 
-    def add(self, spec, xkind, ykind, xs, ys, sub=None, xorder=None, yorder=None):
+    def add(self, spec, xkind, ykind, xs, ys, sub=None, xorder=None, yorder=None, nscale=None):
         """xs / ys: list of labels (categorical) or floats incl. nan (numeric); same length;
-        xorder / yorder: explicit category order of a categorical component (None = sorted unique labels)"""
+        xorder / yorder: explicit category order of a categorical component (None = sorted unique labels);
+        nscale = (axis, k): the implementation sees the numeric axis `axis` multiplied by 2^k (region and data, exactly); oracle and
+        model work on the unscaled case, and the returned state is divided by 2^k again before it is compared"""
         from glue.core.subset import roi_to_subset_state
         R = self.R
         xarr, xcodes, xcats = make_axis(xkind, xs, xs, xorder)
@@ -270,12 +303,24 @@ class Cases:
             case['sub'] = sub
         self.n += 1
         mixed = (xkind == 'cat') != (ykind == 'cat')
+        impl_spec, sfac = spec, None
+        if nscale is not None and spec[0] != 'catroi' and (xkind if nscale[0] == 'x' else ykind) == 'num':
+            cand = scale_spec(spec, nscale[0], F(2) ** nscale[1])
+            if cand is not None:
+                impl_spec, sfac = cand, 2.0 ** nscale[1]
+                case['nscale'] = [nscale[0], nscale[1]]
+                if nscale[0] == 'x':
+                    xarr = xarr * sfac
+                else:
+                    yarr = yarr * sfac
         try:
             d = build_data(xarr, yarr, xorder if xkind == 'cat' else None, yorder if ykind == 'cat' else None)
-            roi = build_roi(spec, xcats)
+            roi = build_roi(impl_spec, xcats)
             st = roi_to_subset_state(roi, x_att=d.id['x'], y_att=d.id['y'], x_categories=xcats, y_categories=ycats)
             mask = np.asarray(st.to_mask(d)).astype(bool)
             cst = canon_state(st, d, xcats, ycats)
+            if sfac is not None:
+                cst = unscale_state(cst, 0 if nscale[0] == 'x' else 1, sfac)
         except Exception as e:
             if spec[0] == 'catroi' and xkind == 'num' and ykind == 'num':
                 cst, mask = ('error',), None
@@ -343,7 +388,7 @@ class Cases:
         for (case, line, cst, mask, orc, eps, truth, spec, bridge), o in zip(self.items, outs):
             nin = 0 if mask is None else int(mask.sum())
             R.count((self.stream, repr(case['roi']), case['xkind'], case['ykind'], tuple(case['x']), tuple(case['y']), tuple(case.get('xcats', ())), tuple(case.get('ycats', ()))),
-                    nontrivial=mask is not None and 0 < nin < len(mask), cat_order=('explicit' if ('xcats' in case or 'ycats' in case) else 'sorted'), stream=self.stream, kind=spec[0], axes=case['xkind'] + '/' + case['ykind'],
+                    nontrivial=mask is not None and 0 < nin < len(mask), numeric_scale=('2^%d' % case['nscale'][1] if case.get('nscale') else '1'), cat_order=('explicit' if ('xcats' in case or 'ycats' in case) else 'sorted'), stream=self.stream, kind=spec[0], axes=case['xkind'] + '/' + case['ykind'],
                     path=cst[0], n_elements=len(case['x']))
             if is_err(o) or tag(o) != 0:
                 R.fail('correspondence', case, {'why': 'model returned an error', 'model': o})
@@ -456,7 +501,8 @@ def stream_axis_aligned(R):
             ys_n = [v for _ in order for v in other]
             C.add(('range', 'x', F(lo), F(hi)), 'cat', 'num', xs_c, ys_n)
             C.add(('range', 'y', F(lo), F(hi)), 'num', 'cat', ys_n, xs_c)
-            C.add(('range', 'x', F(lo), F(hi)), 'num', 'num', ys_n, list(reversed(ys_n)))
+            kk = rng.choice([None, None, -40, -20, 20, 40])
+            C.add(('range', 'x', F(lo), F(hi)), 'num', 'num', ys_n, list(reversed(ys_n)), nscale=None if kk is None else ('x', kk))
             C.add(('range', 'y', F(lo), F(hi)), 'cat', 'cat', xs_c[:len(order)], list(order))
         # rectangles: x edges and y edges both swept
         rect_pairs = [(rng.choice(edge_pairs), rng.choice(edge_pairs)) for _ in range(R.pick(250, 1200))]
@@ -468,8 +514,9 @@ def stream_axis_aligned(R):
             nvx = numeric_values([x0, x1])
             nvy = numeric_values([y0, y1])
             # cat / num
-            C.add(spec, 'cat', 'num', [lab for lab in order for _ in nvy], [v for _ in order for v in nvy])
-            C.add(spec, 'num', 'cat', [v for _ in order for v in nvx], [lab for lab in order for _ in nvx])
+            kk = rng.choice([None, None, -40, -20, 20, 40])
+            C.add(spec, 'cat', 'num', [lab for lab in order for _ in nvy], [v for _ in order for v in nvy], nscale=None if kk is None else ('y', kk))
+            C.add(spec, 'num', 'cat', [v for _ in order for v in nvx], [lab for lab in order for _ in nvx], nscale=None if kk is None else ('x', kk))
             C.add(spec, 'cat', 'cat', [a for a in order for _ in order2], [b for _ in order for b in order2])
             C.add(spec, 'num', 'num', [v for v in nvx for _ in nvy], [w for _ in nvx for w in nvy])
         C.finish()
@@ -587,6 +634,13 @@ def stream_polygon_like(R):
     # fixed case of the known finding (annulus bridge on a category line): always exercised, silent once repaired
     C.add(('ann', F(3, 4), F(3), F(1, 4), F(1, 2)), 'num', 'cat',
           [v for _ in range(4) for v in (0.375, 1.125, 0.75, 1.5)], [b for b in ['a', 'b', 'c', 'd'] for _ in range(4)], sub=-1)
+    # fixed polygons and an ellipse over a numeric axis of magnitude 2^-40 .. 2^40, both orientations
+    vals0 = [k_ / 4 for k_ in range(-6, 18)] + [0.5 + TINY, 2.9999, float('nan')]
+    for ip, spec0 in enumerate(FIXED_POLYS + [('ell', F(3, 2), F(1), F(2), F(5, 4), None), ('rect', F(-1, 2), F(5, 2), F(1, 4), F(9, 4), None)]):
+        for k_ in (-40, -30, 30, 40):
+            labs = LABEL_POOLS[(ip + k_) % len(LABEL_POOLS)]
+            C.add(spec0, 'cat', 'num', [a for a in labs for _ in vals0], [v for _ in labs for v in vals0], sub=-2, nscale=('y', k_))
+            C.add(spec0, 'num', 'cat', [v for _ in labs for v in vals0], [b for b in labs for _ in vals0], sub=-2, nscale=('x', k_))
     n = R.pick(1200, 7000)
     for i in range(n):
         rng = R.subrng('pl', i)
@@ -610,15 +664,21 @@ def stream_polygon_like(R):
         if rng.random() < 0.5:
             vals.append(float('nan'))
             valsx.append(float('nan'))
+        # numeric axis of very small / very large magnitude: multiplied by a power of two (exact), both orientations
+        ns = None
+        if combo != 'cat/cat' and rng.random() < 0.4:
+            ns = ('x' if combo == 'num/cat' else 'y', rng.choice([-40, -34, -24, -12, 12, 24, 40]))
+            if spec[0] == 'circ':
+                spec = ('ell', spec[1], spec[2], spec[3], spec[3], None)
         if combo == 'cat/cat':
             C.add(spec, 'cat', 'cat', [a for a in ox for _ in oy], [b for _ in ox for b in oy], sub=i, xorder=xo, yorder=yo)
         elif combo == 'cat/num':
-            C.add(spec, 'cat', 'num', [a for a in ox for _ in vals], [v for _ in ox for v in vals], sub=i, xorder=xo)
+            C.add(spec, 'cat', 'num', [a for a in ox for _ in vals], [v for _ in ox for v in vals], sub=i, xorder=xo, nscale=ns)
         elif combo == 'num/cat':
-            C.add(spec, 'num', 'cat', [v for _ in oy for v in valsx], [b for b in oy for _ in valsx], sub=i, yorder=yo)
+            C.add(spec, 'num', 'cat', [v for _ in oy for v in valsx], [b for b in oy for _ in valsx], sub=i, yorder=yo, nscale=ns)
         else:
             P = G.make_points(truth, rng, 24, 12, truth.scale() * G.EPS_SCALE)
-            C.add(spec, 'num', 'num', P[:, 0].tolist(), P[:, 1].tolist(), sub=i)
+            C.add(spec, 'num', 'num', P[:, 0].tolist(), P[:, 1].tolist(), sub=i, nscale=ns)
         if i % 1000 == 999:
             C.finish()
     C.finish()
@@ -638,6 +698,13 @@ def stream_categorical_roi(R):
                 for sel in itertools.combinations(range(n), r):
                     C.add(('catroi', tuple(sel)), 'cat', 'num', list(order), [0.5] * n)
                     C.add(('catroi', tuple(sel)), 'cat', 'cat', list(order), list(reversed(order)))
+    # labels of different widths, prefixes of each other, non-ASCII, trailing blanks: the region's label list is in general narrower
+    # (shorter longest label) than the data's; every subset of the 4 labels as the region, the data holds all of them
+    for pool in PREFIX_POOLS:
+        for r in range(0, 5):
+            for sel in itertools.combinations(range(4), r):
+                C.add(('catroi', tuple(sel)), 'cat', 'num', list(pool), [0.5] * 4)
+                C.add(('catroi', tuple(sel)), 'cat', 'cat', list(reversed(pool)), list(pool), xorder=list(pool) if len(sel) % 2 else None)
     # malformed: a CategoricalROI with two numeric attributes cannot be converted (to_polygon is "just not possible")
     C.add(('catroi', (0,)), 'num', 'num', [0.0, 1.0], [0.0, 1.0])
     C.finish()
@@ -721,7 +788,8 @@ def replay(R, case):
         ys = [v if case['ykind'] == 'cat' else float(v) for v in ys]
         Cl = G.Collect()
         C = Cases(Cl, case.get('stream', 'replay'))
-        C.add(spec, case['xkind'], case['ykind'], xs, ys, xorder=case.get('xcats'), yorder=case.get('ycats'))
+        C.add(spec, case['xkind'], case['ykind'], xs, ys, xorder=case.get('xcats'), yorder=case.get('ycats'),
+              nscale=tuple(case['nscale']) if case.get('nscale') else None)
         fails = [f['detail'] for f in Cl.failures if f['kind'] == 'oracle']
         out['oracle_failures'] = fails
         out['known_finding_keys'] = sorted(set(f['key'] for f in Cl.failures if f['kind'] == 'oracle' and f.get('key')))
